@@ -862,6 +862,126 @@ def _part_ii(task, rec):
             check_handwritten(tuple(item), rec)
 
 
+# --------------------------------------------------------------------------- part (vt): value types of a parameter
+# "All admissible values": a value is admissible when Parameters.set_value accepts it (the library's own checks:
+# numbers.Integral / numbers.Number / bool / str).  For every parameter of the default set x every value of a TYPE
+# alphabet (Python bool / int / float / str and the numpy scalar types, same numeric value) the dump -> read round trip
+# has to give the same value back.  Values that set_value refuses are outside the statement (counted).
+def vt_values(tname, seed):
+    """(label, value) pairs of the type alphabet for a parameter of the given declared type."""
+    import numpy as np
+    s = seed % 4
+    i = [3, 7, 5, 2][s]                     # small enough for every numpy integer type, accepted by every integer check
+    big = [500, 1000, 64, 99][s]
+    f = [0.5, 0.25, 0.75, 0.125][s]         # exactly representable in every float type, inside (0, 1)
+    ints = [('int', i), ('int', big), ('bool', True), ('bool', False), ('numpy.int64', np.int64(big)),
+            ('numpy.int32', np.int32(big)), ('numpy.int16', np.int16(i)), ('numpy.int8', np.int8(i)),
+            ('numpy.uint8', np.uint8(i)), ('numpy.uint64', np.uint64(big)), ('numpy.intp', np.intp(i)),
+            ('numpy.bool_', np.bool_(True))]
+    floats = [('float', f), ('float', float(i)), ('numpy.float64', np.float64(f)), ('numpy.float32', np.float32(f)),
+              ('numpy.float16', np.float16(f)), ('numpy.longdouble', np.longdouble(f)), ('float', float('inf')),
+              ('float', float('nan')), ('numpy.float64', np.float64(i))]
+    strs = [('str', 'scipy'), ('str', 'True'), ('str', str(i)), ('numpy.str_', np.str_('scipy')),
+            ('numpy.str_', np.str_('3.2.14'))]
+    if tname == 'bool':
+        return [('bool', True), ('bool', False), ('numpy.bool_', np.bool_(True)), ('numpy.bool_', np.bool_(False)),
+                ('int', 1), ('int', 0), ('str', 'True'), ('numpy.int64', np.int64(1))]
+    if tname == 'int':
+        return ints + floats[:4]
+    if tname == 'float':
+        return floats + ints
+    return strs          # (the version entry has no check at all: values that are not text are not admissible for it)
+
+
+def vt_kind(tname, v):
+    """Class of the witness for the finding key."""
+    import numpy as np
+    if isinstance(v, (bool, np.bool_)) and tname in ('int', 'float'):
+        return 'bool-for-numeric-parameter'
+    if isinstance(v, np.generic) and not isinstance(v, (int, float, str)):
+        return 'numpy-scalar-not-a-python-number'
+    if isinstance(v, np.generic):
+        return 'numpy-scalar-subclass-of-a-python-type'
+    return 'python-builtin'
+
+
+def vt_same(want, got) -> bool:
+    """The value read back is the value set: same text for strings, same truth value for booleans, same number
+    (whatever the numeric type) otherwise."""
+    import numbers
+    import numpy as np
+    if isinstance(want, (str, bytes)):
+        return isinstance(got, str) and str(got) == (want if isinstance(want, str) else want.decode())
+    if isinstance(got, str) or not isinstance(got, numbers.Number):
+        return False
+    if isinstance(want, (bool, np.bool_)) and not isinstance(got, (bool, np.bool_)) and got not in (0, 1):
+        return False
+    try:
+        w, g = float(want), float(got)
+    except (TypeError, ValueError, OverflowError):
+        return bool(want == got)
+    if math.isnan(w):
+        return math.isnan(g)
+    return bool(want == got) and w == g
+
+
+def check_value_type(name, section, tname, label, v, rec):
+    import tomllib
+    from biogeme.parameters import Parameters
+    case = dict(part='vt', name=name, section=section, tname=tname, label=label, value=repr(v), seed=_SEED)
+    p = Parameters()
+    try:
+        p.set_value(name, v, section)
+    except Exception as e:
+        rec.count('vt_refused_by_set_value_not_admissible')
+        rec.case(None, ('vt', name, section, label, repr(v), 'refused'), outcome=('vt', 'refused', type(e).__name__))
+        return
+    kind = vt_kind(tname, v)
+    ck = ('vt', name, section, label, repr(v))
+
+    def fail(clause, detail, observed):
+        rec.case(ck, ('vt', name, section, label, repr(v), clause), outcome=('vt', clause, kind))
+        rec.violation(f'C14|toml-value-type:{clause}|value-kind={kind}',
+                      f'{section}.{name} (declared {tname}): set_value accepts {v!r} ({label}), {detail}', case,
+                      expected=repr(v), observed=observed)
+
+    d = fresh_dir('vt')
+    try:
+        try:
+            p.dump_file('v.toml')
+        except Exception as e:
+            return fail('dump-raises', f'then dump_file raises {type(e).__name__}: {str(e)[:100]}', repr(e)[:200])
+        text = open('v.toml', encoding='utf-8').read()
+        try:
+            doc = tomllib.loads(text)
+        except Exception as e:
+            return fail('dump-not-valid-toml', f'the dumped file is not valid TOML: {e}', str(e)[:200])
+        q = Parameters()
+        try:
+            q.read_file('v.toml')
+        except Exception as e:
+            return fail('read-raises', f'dump_file writes {doc.get(section, {}).get(name)!r} and read_file of that file '
+                                       f'raises {type(e).__name__}: {str(e)[:100]}', repr(e)[:200])
+        got = q.get_value(name, section)
+        if not vt_same(v, got):
+            return fail('value-differs', f'and it comes back as {got!r} ({type(got).__name__})', repr(got))
+        # everything else is untouched
+        for n2, s2, t2, dv in default_parameter_table():
+            if (n2, s2) != (name, section) and not same_value(t2, dv, q.get_value(n2, s2)):
+                return fail('other-parameter-changed', f'and {s2}.{n2} comes back as {q.get_value(n2, s2)!r}', n2)
+        rec.case(ck, ('vt', name, section, label, repr(v), 'ok', repr(got)), outcome=('vt', 'ok', kind))
+    finally:
+        leave_dir(d)
+
+
+def _part_vt(task, rec):
+    table = default_parameter_table()
+    rec.sample(dict(part='vt', parameters=[t[0] for t in table[task['lo']:task['hi']]]))
+    for name, section, tname, default in table[task['lo']:task['hi']]:
+        for label, v in vt_values(tname, _SEED):
+            check_value_type(name, section, tname, label, v, rec)
+
+
 # --------------------------------------------------------------------------- part (iii): report listings
 def fmt3(v) -> float:
     return float(f'{float(v):.3g}')
@@ -1048,6 +1168,9 @@ def _part_iii(task, rec):
         one(w, ok, [sorted(c.items()) for c in coef])
         if not ok:
             fail('get_f12', 'listing', f'coefficient lines {coef} end={end_ok} vs {values}')
+    # every figure of every report (part (fig) oracle) for the real results objects with plain names
+    if not lenient and pool <= 1:
+        check_figures(r, rec, case, f'real-estimation,kind={kind}', casekey + ('fig',))
     # printed form
     try:
         call('str', lambda: str(r))
@@ -1089,6 +1212,420 @@ def _part_iii(task, rec):
             pass
     finally:
         leave_dir(d)
+
+
+# --------------------------------------------------------------------------- part (fig): every figure of every report
+# The reports print figures (estimates, standard errors, t, p, covariances, correlations) in a short notation.  The
+# statement asks that every report lists every estimated parameter *with its value*: whatever the magnitude of the
+# value, the token printed for it has to be a number, and that number has to be the value to the precision of the
+# format (vf.ref_reports.token_is).  Results objects are enumerated over a magnitude / special-value alphabet:
+#   synthetic: the raw results of a real estimation (K = 2 or 3) whose estimates, second-derivative matrix, BHHH matrix
+#       and bootstrap matrix are replaced so that the estimate of each parameter, its standard error, the correlation,
+#       the ratio robust / Rao-Cramer standard error take every value of their alphabets (full product in the thorough
+#       tier); bioResults(raw) derives all statistics itself;
+#   shapes: regular / singular second-derivative matrix (zero variance, t = largest float) / not negative definite
+#       (standard error = largest float) / nan in the BHHH matrix (nan robust standard error);
+#   real: estimations whose bound on the constant is an alphabet value and is active (the estimate IS the bound).
+FIG_MANTISSAS = [[1.0, 2.0004, 1.2345, 9.996], [3.0, 5.0002, 7.6543, 9.995], [1.0, 4.0049, 6.25, 9.996],
+                 [8.0, 6.0001, 2.5, 9.9951]]
+FIG_INTS = [0.0, -0.0, 1.0, -1.0, 12.0, 100.0, 1000.0, -2000.0, 123456.0, 1.0e7]
+FIG_SPECIALS = [float('nan'), float('inf'), float('-inf')]
+FIG_SHAPES = ['regular', 'singular', 'indefinite', 'nan-bhhh']
+FIG_BOOT_PATTERN = [(-1.0, 1.0, 0.5), (0.0, -2.0, 0.5), (1.0, 1.0, -1.0)]      # rows of the bootstrap matrix (offsets)
+PARAM_COLUMNS = {'Value': 'value', 'Std err': 'stdErr', 't-test': 'tTest', 'p-value': 'pValue',
+                 'Rob. Std err': 'robust_stdErr', 'Rob. t-test': 'robust_tTest', 'Rob. p-value': 'robust_pValue',
+                 'Bootstrap t-test': 'bootstrap_tTest', 'Bootstrap p-value': 'bootstrap_pValue'}
+PAIR_COLUMNS = ['Covariance', 'Correlation', 't-test', 'p-value', 'Rob. cov.', 'Rob. corr.', 'Rob. t-test', 'Rob. p-value',
+                'Boot. cov.', 'Boot. corr.', 'Boot. t-test', 'Boot. p-value']
+
+
+def fig_alphabets(tier, seed=None):
+    """values (estimates), S (standard errors), RHO (correlations), QB ((robust / Rao-Cramer ratio, bootstrap?))."""
+    s = (_SEED if seed is None else seed) % 4
+    mant = FIG_MANTISSAS[s]
+    quick = tier == 'quick'
+    exps = [-7, -5, -3, 0, 3, 5, 7] if quick else list(range(-7, 8))
+    values = [sg * m * 10.0 ** e for e in exps for m in mant for sg in (1.0, -1.0)]
+    values += FIG_INTS + FIG_SPECIALS
+    if quick:
+        S = [mant[0] * 1e-5, 0.5, mant[1] * 1e3]
+        RHO = [mant[0] * 1e-7, -0.5]
+        QB = [(1.0, 0), (1.0e3, 1)]
+    else:
+        S = [mant[0] * 1e-7, mant[0] * 1e-5, mant[2] * 1e-3, 0.5, mant[1] * 1e3, mant[0] * 1e5]
+        RHO = [0.0, mant[0] * 1e-7, -mant[1] * 1e-5, -0.5]
+        QB = [(q, b) for q in (1.0, 1.0e3, mant[1] * 1e-3) for b in (0, 1)]
+    return dict(values=values, S=S, RHO=RHO, QB=QB)
+
+
+def fig_bounds(seed=None):
+    """(lower, upper) bounds on the constant of the real estimations of part (fig): the bound is active."""
+    m = FIG_MANTISSAS[(_SEED if seed is None else seed) % 4]
+    return [(None, m[0] * 1e-5), (None, -m[0] * 1e3), (m[1] * 1e3, None), (None, -m[1] * 1e-7), (m[0] * 1e7, None)]
+
+
+def _hex(x):
+    return None if x is None else float(x).hex()
+
+
+def _unhex(h):
+    return None if h is None else float.fromhex(h)
+
+
+def fig_spec(K, shape, values, ses, rho, q, boot):
+    return dict(part='fig', K=K, shape=shape, values=[_hex(v) for v in values], ses=[_hex(v) for v in ses], rho=_hex(rho),
+                q=_hex(q), boot=int(boot))
+
+
+def fig_object(spec):
+    """The results object of a spec (self-contained: all numbers are in the spec)."""
+    import numpy as np
+    import biogeme.results as res
+    if spec.get('real') is not None:
+        return fig_real_object(*[_unhex(h) for h in spec['real']])
+    K, shape, boot = spec['K'], spec['shape'], spec['boot']
+    r, free, fixed = pristine_results('k2' if K == 2 else 'k3', 0, 3 if boot else 0)
+    raw = r.data
+    vals = [_unhex(h) for h in spec['values']]
+    ses = [_unhex(h) for h in spec['ses']]
+    rho, q = _unhex(spec['rho']), _unhex(spec['q'])
+    raw.betaValues = np.array(vals, dtype=float)
+    for b, v in zip(raw.betas, raw.betaValues):
+        b.value = v
+    D = np.diag(ses)
+    R = np.eye(K)
+    R[0, 1] = R[1, 0] = rho
+    if K == 3:
+        R[1, 2] = R[2, 1] = rho / 2.0
+    H = -np.linalg.inv(D.dot(R).dot(D))
+    B = (q * q) * (-H)
+    if shape == 'singular':
+        H[0, :] = 0.0
+        H[:, 0] = 0.0
+    elif shape == 'indefinite':
+        H = -H
+    elif shape == 'nan-bhhh':
+        B[0, 0] = float('nan')
+    elif shape != 'regular':
+        raise ValueError(shape)
+    raw.H, raw.bhhh = H, B
+    if boot:
+        centre = [v if math.isfinite(v) else 0.0 for v in vals]
+        raw.bootstrap = np.array([[centre[i] + 2.0 * ses[i] * row[i] for i in range(K)] for row in FIG_BOOT_PATTERN])
+    return res.bioResults(raw)
+
+
+def fig_real_object(lb, ub):
+    """A real estimation whose constant has the bound (lb, ub); cached per worker.  None when the estimation fails
+    (outside C14)."""
+    import copy
+    import pandas as pd
+    import biogeme.biogeme as bb
+    import biogeme.database as db
+    import biogeme.results as res
+    from biogeme import models
+    from biogeme.expressions import Beta, Variable
+    from biogeme.parameters import Parameters
+    cache = _STATE.setdefault('fig_real', {})
+    key = (lb, ub)
+    if key not in cache:
+        d = db.Database(DBNAME, pd.DataFrame(TABLE))
+        x1, x2, ch = Variable('x1'), Variable('x2'), Variable('ch')
+        start = lb if lb is not None else ub
+        asc, b1 = Beta('ASC', start, lb, ub, 0), Beta('b_x', 0, None, None, 0)
+        ll = models.loglogit({1: asc + b1 * x1, 2: b1 * x2}, None, ch)
+        b = bb.BIOGEME(d, ll, parameters=Parameters(), generate_html=False, generate_pickle=False, save_iterations=False,
+                       number_of_threads=1)
+        b.modelName = MODEL_NAME
+        try:
+            cache[key] = b.estimate().data
+        except Exception as e:
+            cache[key] = ('failed', type(e).__name__)
+    if isinstance(cache[key], tuple):
+        return None
+    return res.bioResults(copy.deepcopy(cache[key]))
+
+
+def _param_attr(col):
+    if col in PARAM_COLUMNS:
+        return PARAM_COLUMNS[col]
+    if re.fullmatch(r'Bootstrap\[\d+\] Std err', col):
+        return 'bootstrap_stdErr'
+    return None
+
+
+def check_figures(r, rec, case, keytail, casekey, pairs_by_name=True, full=True):
+    """Oracle of part (fig) for one results object: every figure printed by get_html / get_latex / get_f12 / the printed
+    form for an estimated parameter (and for a pair of parameters) is a number equal to the figure of the results object
+    to the precision of the format.  full=False: only the widest variant of each writer (all statistics; F12 with the
+    robust standard errors).  Returns the report texts by writer variant."""
+    texts = {}
+    from vf import ref_reports as rr
+    betas = {b.name: b for b in r.data.betas}
+    names = list(r.data.betaNames)
+    pairs = dict(r.data.secondOrderTable or {})
+    nbad = 0
+
+    def judge(writer, variant, figs, problems):
+        """figs: (figure kind, what, x, token, significant digits)"""
+        nonlocal nbad
+        bad = []
+        classes = set()
+        for kind, what, x, tok, sig in figs:
+            cls = rr.rendering_class(x, sig)
+            classes.add(cls)
+            if not rr.token_is(tok, x, sig):
+                bad.append((kind, what, x, tok, cls))
+        ok = not bad and not problems
+        rec.case(casekey + (writer, variant), (writer, variant, [f[3] for f in figs], problems),
+                 outcome=('fig', writer, ok, 'exponent-form' in classes, bool(classes & {'nan', 'inf'})))
+        rec.count('figures_read', len(figs))
+        for clause, detail in problems:
+            rec.violation(f'C14|figure:{writer}:{clause}|{keytail}', f'{writer}({variant}): {clause}: {detail}', case,
+                          observed=detail)
+        for kind, what, x, tok, cls in bad:
+            rec.violation(f'C14|figure:{writer}:token-is-not-the-number|figure={kind},rendering={cls}',
+                          f'{writer}({variant}) prints {tok!r} for {what} = {float(x)!r}: not a number equal to the figure '
+                          f'to the precision of the format', case, expected=repr(float(x)), observed=tok)
+        if not ok:
+            nbad += 1
+
+    def table_figs(head, rows, first, problems, writer):
+        """Figures of a parameter table: head = column names after the name column, rows = cells incl. the name."""
+        figs = []
+        if 'Value' not in head:
+            problems.append(('listing', f'no Value column in {head}'))
+        for n in names:
+            mine = [c for c in rows if c[0] == n]
+            if len(mine) != 1 or len(mine[0]) != first + len(head):
+                problems.append(('listing', f'parameter {n!r} is not on exactly one complete row: {mine}'))
+                continue
+            for col, tok in zip(head, mine[0][first:]):
+                attr = _param_attr(col)
+                if attr is None:
+                    if col == 'Active bound':
+                        if rr.token_value(tok) not in (0.0, 1.0):
+                            problems.append(('listing', f'active-bound flag of {n!r} printed as {tok!r}'))
+                    else:
+                        rec.count('figure_column_unknown_to_the_reference')
+                    continue
+                x = getattr(betas[n], attr)
+                if x is None:
+                    rec.count('figure_absent_in_results_object')
+                    continue
+                figs.append(('value' if attr == 'value' else 'statistic', f'{col} of {n}', x, tok, 3))
+        return figs
+
+    def pair_figs(head, rows, problems):
+        figs = []
+        for (n1, n2), v in pairs.items():
+            if pairs_by_name and ('-' in n1 or '-' in n2):
+                rec.count('pair_rows_not_matched_name_with_hyphen')
+                continue
+            mine = [c for c in rows if c[:len(c) - len(head)] in ([n1, n2], [f'{n1}-{n2}'])]
+            if len(mine) != 1:
+                rec.count('pair_row_not_found')      # the statement speaks of parameters, not of pairs
+                continue
+            for col, tok in zip(head, mine[0][len(mine[0]) - len(head):]):
+                if col not in PAIR_COLUMNS or PAIR_COLUMNS.index(col) >= len(v):
+                    rec.count('figure_column_unknown_to_the_reference')
+                    continue
+                figs.append(('statistic', f'{col} of {n1}-{n2}', v[PAIR_COLUMNS.index(col)], tok, 3))
+        return figs
+
+    for only_robust in ((False, True) if full else (False,)):
+        variant = f'only_robust={only_robust}'
+        # HTML
+        html = texts['html', only_robust] = r.get_html(only_robust=only_robust)
+        problems, figs = [], []
+        parsed = rr.html_parameters(html)
+        if parsed is None:
+            problems.append(('listing', 'no table of estimated parameters'))
+        else:
+            head, rows = parsed
+            figs += table_figs(head[1:], rows, 1, problems, 'get_html')
+        parsed = rr.html_correlations(html)
+        if parsed is not None:
+            head, rows = parsed
+            figs += pair_figs(head[2:], rows, problems)
+        judge('get_html', variant, figs, problems)
+        # LaTeX
+        latex = texts['latex', only_robust] = r.get_latex(only_robust=only_robust)
+        problems, figs = [], []
+        ptab, ctab = rr.latex_tables(latex)
+        if not ptab or ptab[0][0] != '':
+            problems.append(('listing', 'no table of estimated parameters'))
+        else:
+            figs += table_figs(ptab[0][1:], ptab[1:], 1, problems, 'get_latex')
+        if ctab and ctab[0][0] == '':
+            figs += pair_figs(ctab[0][1:], ctab[1:], problems)
+        judge('get_latex', variant, figs, problems)
+    # F12
+    for robust in ((True, False) if full else (True,)):
+        variant = f'robust_std_err={robust}'
+        problems, figs = [], []
+        texts['f12', robust] = r.get_f12(robust_std_err=robust)
+        coef, end_ok, corr = rr.f12_figures(texts['f12', robust])
+        if not end_ok or len(coef) != len(names):
+            problems.append(('listing', f'{len(coef)} coefficient lines for {len(names)} parameters (end marker: {end_ok})'))
+        else:
+            for n, (label, flag, toks) in zip(names, coef):
+                if label != f'{n[:10]: >10}' or len(toks) != 2:
+                    problems.append(('listing', f'coefficient line of {n!r}: label {label!r}, figures {toks}'))
+                    continue
+                b = betas[n]
+                figs.append(('value', f'Value of {n}', b.value, toks[0], 13))
+                figs.append(('statistic', f'standard error of {n}', b.robust_stdErr if robust else b.stdErr, toks[1], 13))
+            k = 0
+            for i, ni in enumerate(names):
+                for j in range(i):
+                    v = pairs.get((ni, names[j]))
+                    tok = corr[k] if k < len(corr) else None
+                    k += 1
+                    if v is None or tok is None:
+                        rec.count('pair_row_not_found')
+                        continue
+                    c = float(v[5 if robust else 1])
+                    if not math.isfinite(c) or abs(c) > 1.0 + 1e-9:
+                        rec.count('f12_correlation_undefined_not_compared')
+                        continue
+                    got = rr.token_value(tok)
+                    rec.count('figures_read')
+                    if got is None or abs(got / 100000.0 - c) > 1.0e-5 * (1 + 1e-9):
+                        problems.append(('correlation-field', f'correlation of {ni}-{names[j]} = {c!r} printed as {tok!r} '
+                                                              f'(unit 1/100000)'))
+        judge('get_f12', variant, figs, problems)
+    # printed form
+    text = texts['str', None] = str(r)
+    problems, figs = [], []
+    for n in names:
+        got = rr.printed_parameter(text, n)
+        if got is None:
+            problems.append(('listing', f'parameter {n!r} is not on exactly one line of the printed form'))
+            continue
+        tok, groups = got
+        b = betas[n]
+        figs.append(('value', f'Value of {n}', b.value, tok, 3))
+        stats = [[getattr(b, p + a) for a in ('stdErr', 'tTest', 'pValue')] for p in ('', 'robust_', 'bootstrap_')]
+        stats = [g for g in stats if g[0] is not None]
+        if len(groups) != len(stats) or any(len(g) != 3 for g in groups):
+            problems.append(('listing', f'statistics of {n!r} printed as {groups}'))
+            continue
+        for g, s, lab in zip(groups, stats, ('', 'robust ', 'bootstrap ')):
+            for t, x, a in zip(g, s, ('standard error', 't-test', 'p-value')):
+                figs.append(('statistic', f'{lab}{a} of {n}', x, t, 3))
+    for (n1, n2), v in pairs.items():
+        toks = rr.printed_pair(text, (n1, n2))
+        if toks is None or len(toks) != 8:
+            rec.count('pair_row_not_found')
+            continue
+        for t, x, col in zip(toks, v, PAIR_COLUMNS):
+            figs.append(('statistic', f'{col} of {n1}-{n2}', x, t, 3))
+    judge('__str__', 'printed', figs, problems)
+    return texts
+
+
+FIG_WRITERS = dict(html=lambda r, a: r.get_html(only_robust=a), latex=lambda r, a: r.get_latex(only_robust=a),
+                   f12=lambda r, a: r.get_f12(robust_std_err=a), str=lambda r, a: str(r))
+
+
+def check_fig_object(spec, rec, roundtrip=False, full=False):
+    """One results object of part (fig): the estimates are the ones put in, every report figure is right; optionally
+    the object is saved and loaded again and has to give the same reports."""
+    import biogeme.results as res
+    r = fig_object(spec)
+    if r is None:
+        rec.count('fig_real_estimation_failed_out_of_domain')
+        rec.case(None, ('fig', 'no object'), outcome=('fig', 'no-object'))
+        return
+    if spec.get('real') is not None:
+        keytail = 'real-estimation,active-bound'
+        casekey = ('fig', 'real', tuple(spec['real']))
+        lb, ub = [_unhex(h) for h in spec['real']]
+        bound = lb if lb is not None else ub
+        got = r.get_beta_values()
+        if bits(got.get('ASC', float('nan'))) != bits(bound):
+            # the bound is not active: the object is an ordinary one (still checked), but the alphabet value is not reached
+            rec.count('fig_real_bound_not_active')
+    else:
+        keytail = f'K={spec["K"]},shape={spec["shape"]}'
+        casekey = ('fig', spec['K'], spec['shape'], tuple(spec['values']), tuple(spec['ses']), spec['rho'], spec['q'], spec['boot'])
+        want = [_unhex(h) for h in spec['values']]
+        got = r.get_beta_values()
+        if [bits(got[n]) for n in r.data.betaNames] != [bits(v) for v in want]:
+            rec.violation(f'C14|figure:get_beta_values:values-vs-raw|{keytail}',
+                          f'get_beta_values gives {got} for raw estimates {want}', spec, expected=want, observed=repr(got))
+    texts = check_figures(r, rec, spec, keytail, casekey, full=full)
+    if roundtrip:
+        d = fresh_dir('fig')
+        try:
+            fname = r.write_pickle()
+            r2 = res.bioResults(pickle_file=fname, identification_threshold=r.identification_threshold)
+            r2.data.pickleFileName = None      # the reports of the original were made before it was saved
+            bad = None
+            for (w, arg), t1 in texts.items():
+                t2 = FIG_WRITERS[w](r2, arg)
+                if t1 != t2:
+                    bad = (w, _first_text_diff(t1, t2))
+                    break
+            rec.case(casekey + ('roundtrip',), ('roundtrip', bad), outcome=('fig-roundtrip', bad is None))
+            if bad:
+                rec.violation(f'C14|pickle-roundtrip:report:{bad[0]}|figures,{keytail}',
+                              f'report {bad[0]} differs after the round trip of a results object of part (fig): {bad[1]}',
+                              spec, observed=bad[1])
+        finally:
+            leave_dir(d)
+
+
+def fig_specs(task):
+    """The results objects of one task (deterministic)."""
+    A = fig_alphabets(task['tier'])
+    V = A['values']
+    n = len(V)
+    K, shape = task['K'], task['shape']
+    out = []
+    if task.get('real'):
+        return [dict(part='fig', real=[_hex(lb), _hex(ub)]) for lb, ub in fig_bounds()]
+    quick = task['tier'] == 'quick'
+    for i in range(task['lo'], min(task['hi'], n)):
+        vals = [V[i], V[n - 1 - i]] + ([V[(7 * i + 3) % n]] if K == 3 else [])
+        if shape == 'regular' and K == 2:
+            combos = [(s, rho, q, b) for s in A['S'] for rho in A['RHO'] for q, b in A['QB']]
+        elif shape == 'regular':
+            combos = [(s, rho, q, b) for s in A['S'][::2] for rho in A['RHO'][1:2 if quick else 3] for q, b in A['QB'][-1:]]
+        else:
+            combos = [(A['S'][1], A['RHO'][-1], q, b) for q, b in A['QB'][-1 if quick else -2:]]
+        for k, (s, rho, q, b) in enumerate(combos):
+            ses = [s, 3.0 * s] + ([0.5 * s] if K == 3 else [])
+            # first object of an estimate: every variant of every writer; every second (fourth: special shapes) of
+            # them is also saved and loaded again
+            out.append(dict(fig_spec(K, shape, vals, ses, rho, q, b), full=int(k == 0),
+                            rt=int(k == 0 and i % (2 if shape == 'regular' else 4) == 0)))
+    return out
+
+
+def _part_fig(task, rec):
+    specs = fig_specs(task)
+    if specs:
+        rec.sample(dict(task, first_object=specs[0], objects=len(specs)))
+    for spec in specs:
+        real = spec.get('real') is not None
+        check_fig_object(spec, rec, roundtrip=real or bool(spec.get('rt')), full=real or bool(spec.get('full')))
+
+
+def fig_tasks(tier):
+    A = fig_alphabets(tier)
+    n = len(A['values'])
+    t = [dict(part='fig', tier=tier, K=2, shape='regular', real=True)]
+    step = 4 if tier == 'quick' else 2
+    for lo in range(0, n, step):
+        t.append(dict(part='fig', tier=tier, K=2, shape='regular', lo=lo, hi=lo + step))
+    for shape in FIG_SHAPES[1:]:
+        for lo in range(0, n, 24):
+            t.append(dict(part='fig', tier=tier, K=2, shape=shape, lo=lo, hi=lo + 24))
+    for lo in range(0, n, 12):
+        t.append(dict(part='fig', tier=tier, K=3, shape='regular', lo=lo, hi=lo + 12))
+    return t
 
 
 # --------------------------------------------------------------------------- reference model of the directory
@@ -2476,6 +3013,12 @@ def tasks(tier, seed):
                 continue
             t.append(dict(part='iii', how=how, **s))
             t.append(dict(part='i', how=how, **s))
+    # (fig) every figure of every report over the magnitude / special-value alphabet
+    t.extend(fig_tasks(tier))
+    # (vt) value types of every parameter
+    npar = len(default_parameter_table())
+    for lo in range(0, npar, 6):
+        t.append(dict(part='vt', lo=lo, hi=lo + 6))
     # (L) long histories of one name in one directory
     t.extend(l_tasks(tier))
     # (p) histories on one Parameters object
@@ -2512,6 +3055,10 @@ def run_task(task):
         _part_p(task, rec)
     elif part == 'L':
         _part_l(task, rec)
+    elif part == 'fig':
+        _part_fig(task, rec)
+    elif part == 'vt':
+        _part_vt(task, rec)
     else:
         raise ValueError(part)
     return rec.result()
@@ -2546,6 +3093,13 @@ def replay(case):
         k, bad = run_long_history(case)
         if bad:
             _l_violation(rec, case, k, bad)
+    elif part == 'fig':
+        check_fig_object(case, rec, roundtrip=True, full=True)
+    elif part == 'vt':
+        for label, v in vt_values(case['tname'], case.get('seed', _SEED)):
+            if label == case['label'] and repr(v) == case['value']:
+                check_value_type(case['name'], case['section'], case['tname'], label, v, rec)
+                break
     elif part == 'iv':
         h, i, bad = run_history(case['root'], case['history'])
         try:
